@@ -135,7 +135,8 @@ def gr_st(draw, i, nsess):
     return dict(kind="gr", name="img%d" % i, nt=draw(st.sampled_from(["uint8", "uint8", "int16", "uint16", "float32"])),
                 ncomp=draw(st.sampled_from([1, 1, 3])), xdim=draw(st.integers(1, 8)), ydim=draw(st.integers(1, 8)),
                 layout=draw(st.sampled_from(GR_LAYOUTS)), sess=draw(st.integers(0, nsess - 1)),
-                pal=draw(st.booleans()), attr=draw(st.booleans()))
+                pal=draw(st.booleans()), attr=draw(st.booleans()),
+                attr2=draw(st.sampled_from([None, None, "lint32", "nint32", "luint16", "int32"])))
 
 
 @st.composite
@@ -409,6 +410,14 @@ def build_sessions(case, d, model):
                         av = vals("uint8", 4, 8)
                         p.call("i", "GRsetattr", V("ri"), "gattr", 21, 4, native(av))
                         m["attr"] = be(av, "uint8")
+                        ant = o.get("attr2")
+                        if ant:
+                            # a second attribute with a little-endian or native number type (stored in that order)
+                            code = {"lint32": 0x4000 | 24, "nint32": 0x1000 | 24, "luint16": 0x4000 | 23,
+                                    "int32": 24}[ant]
+                            base = "uint16" if ant == "luint16" else "int32"
+                            av2 = vals(base, 3, 9)
+                            p.call("i", "GRsetattr", V("ri"), "gattr2", code, 3, native(av2))
                     p.call("i", "GRendaccess", V("ri"))
             # vgroups (last session): members are the vdatas attached above or looked up
             for o in hs:
